@@ -2,9 +2,11 @@
   C16 — Discovery lists hold only verified registrations and clients converge to them.
   ONLY property theorems (+ non-vacuity examples + obligations on the regenerated facts).
   Helper lemmas: NutsProofs/Lemmas/C16.lean.  Model: NutsModel/C16/Discovery.lean
-  (discovery/module.go, store.go, client.go).  Facts: NutsModel/Facts/C16.lean is REGENERATED from /repo.
+  (discovery/module.go, store.go, client.go); statement vocabulary (Acceptable, SInv, Reach, IdFun, ExpMono, LiveEq …):
+  NutsModel/C16/Spec.lean.  Facts: NutsModel/Facts/C16.lean is REGENERATED from /repo.
 -/
 import NutsModel.C16.Discovery
+import NutsModel.C16.Spec
 import NutsModel.Facts.C16
 import NutsProofs.Lemmas.C16
 
